@@ -695,6 +695,25 @@ def file_valid(d):
                 fails.append(dict(problem="non-finite values", var=k))
     if shape2d[0] != nx:
         fails.append(dict(problem="x size != nx"))
+    # the documented NaNs of the x-direction arrays are those OUTSIDE the core only: on closed
+    # surfaces (x < ixseps of the inner separatrix, when the grid has core cells) both are finite
+    try:
+        g = {k: int(np.array(f[k])) for k in ("ixseps1", "ixseps2", "jyseps1_1", "jyseps2_1", "jyseps1_2", "jyseps2_2")}
+        has_core = (g["jyseps2_1"] - g["jyseps1_1"]) + (g["jyseps2_2"] - g["jyseps1_2"]) > 0
+        ixc = max(0, min(g["ixseps1"], g["ixseps2"], nx))
+        if has_core and ixc > 0:
+            for k in ("ShiftAngle", "total_poloidal_distance"):
+                if k in f:
+                    v = np.array(f[k], dtype=float).ravel()
+                    n += 1
+                    if len(v) != nx:
+                        fails.append(dict(problem="x-direction array of the wrong length", var=k, length=int(len(v))))
+                    elif not np.all(np.isfinite(v[:ixc])):
+                        fails.append(dict(problem="NaN on closed flux surfaces (documented NaNs are outside the core only)", var=k, core_x=ixc, values=[float(x) for x in v[: min(ixc, 6)]]))
+                    elif k == "total_poloidal_distance" and not np.all(v[:ixc] > 0):
+                        fails.append(dict(problem="total_poloidal_distance <= 0 in the core", values=[float(x) for x in v[: min(ixc, 6)]]))
+    except KeyError:
+        pass  # missing topology integers: reported above
     for k in ("hy", "dy"):
         n += 1
         if k in f and not np.all(np.array(f[k]) > 0):
